@@ -404,15 +404,20 @@ def minimal_class(op, db, records, q, what):
             if r and r[0] == what:
                 q = q2
                 break
+    return query_class(q, what)
+
+
+def query_class(q, what):
+    """structural class of a query: which kind of window, which kinds of column conditions"""
     cols = []
     for col in ("seqid", "biotype", "name", "strand", "attributes"):
-        v = q[col]
+        v = q.get(col)
         if v is not None:
             cols.append(col + (" tuple" if isinstance(v, (tuple, list)) else (" pattern" if "%" in v and col != "attributes" else "")))
     if what.startswith("raised"):
-        w = "no window" if q["start"] is None and q["stop"] is None else "window given"
+        w = "no window" if q.get("start") is None and q.get("stop") is None else "window given"
     else:
-        w = window_class(q["start"], q["stop"], q["allow_partial"])
+        w = window_class(q.get("start"), q.get("stop"), q.get("allow_partial", False))
     return w + "; column conditions: " + (", ".join(cols) or "none")
 
 
@@ -544,7 +549,7 @@ def other_dbs():
     out = {"basic(r1,r3)": ("Basic", [r1, r3]), "basic(empty)": ("Basic", [])}
     for c in ("Gff", "Genbank"):
         n1, n2 = native_records(c)
-        out[f"{c.lower()}(n1,n2,r2)"] = (c, [n1, n2, r2])
+        out[f"{c.lower()}(n1,n2,r2)"] = (c, [dict(n1, name="h1"), dict(n2, name="h2"), r2])
     return out
 
 
@@ -640,7 +645,7 @@ def real_apply(db, op, others):
         return deserialise_object(db.to_json())
     if kind == "write_reload":
         path = _tmp(".sqlitedb")
-        db.write(path)
+        _write_guarded(db, path)
         return type(db)(source=path)
     if kind == "init_db":
         # a new instance initialised from an existing one of the same class holds the same records
@@ -648,29 +653,73 @@ def real_apply(db, op, others):
     raise ValueError(op)
 
 
+class WriteHangs(Exception):
+    """db.write() did not return (sqlite backup retries for ever while the source connection holds a transaction)"""
+
+
+def _write_guarded(db, path):
+    """db.write(path), but a write that never returns becomes the outcome WriteHangs.
+
+    sqlite's backup loop runs in C and cannot be interrupted by a signal handler, so the write is first tried in a
+    forked child (in-memory dbs are copied by fork); only if the child returns is it done in this process too."""
+    import time
+
+    probe = path + ".probe"
+    limit = 4.0 if db.db.in_transaction else 120.0
+    pid = os.fork()
+    if pid == 0:
+        code = 1
+        try:
+            db.write(probe)
+            code = 0
+        finally:
+            os._exit(code)
+    t0 = time.time()
+    done = False
+    while time.time() - t0 < limit:
+        got, status = os.waitpid(pid, os.WNOHANG)
+        if got:
+            done = True
+            break
+        time.sleep(0.01)
+    if not done:
+        os.kill(pid, 9)
+        os.waitpid(pid, 0)
+    for extra in (probe, probe + "-journal"):
+        if os.path.exists(extra):
+            os.remove(extra)
+    if not done:
+        raise WriteHangs()
+    db.write(path)
+
+
 def class_name(db):
     return type(db).__name__.replace("AnnotationDb", "")
 
 
-def canon(state):
-    return (state[0], tuple(model_rows(state[1])), state[2])
+def canon(state, hidden=("memory", False)):
+    """model value + the internal fields of the real object that later operations read (source kind, open transaction)"""
+    return (state[0], tuple(model_rows(state[1])), tuple(hidden))
 
 
 PROBES = [{"seqid": "s1"}, {"strand": "-"}, {"start": 1, "stop": 4, "allow_partial": True}, {"biotype": "cds", "start": 2}]
 
 
+def hidden_of(db):
+    return ("memory" if str(db.source) == ":memory:" else "file", bool(db.db.in_transaction))
+
+
 def observe(db):
     """observable content of a db: class, len, all rows, and a few query answers"""
-    out = {"class": class_name(db), "len": len(db), "rows": all_rows(db),
-           "source": "memory" if str(db.source) == ":memory:" else "file"}
+    out = {"class": class_name(db), "len": len(db), "rows": all_rows(db)}
     for i, kw in enumerate(PROBES):
         out[f"q{i}"] = sorted(key_of_row(r, with_tag=False) for r in db.get_features_matching(**kw))
     return out
 
 
 def model_observe(state):
-    cls, records, src = state
-    out = {"class": cls, "len": len(records), "rows": model_rows(records), "source": src}
+    cls, records, _ = state
+    out = {"class": cls, "len": len(records), "rows": model_rows(records)}
     for i, kw in enumerate(PROBES):
         q = dict(kw)
         q.setdefault("allow_partial", False)
@@ -678,43 +727,100 @@ def model_observe(state):
     return out
 
 
-def op_class(op, state=None):
+def op_class(op):
     kind = op[0]
     if kind == "update":
         return f"update(seqids={'None' if op[2] is None else ('str' if isinstance(op[2], str) else 'list')})"
-    if kind == "subset":
-        cols = [k for k in op[1] if k not in ("start", "stop", "allow_partial")]
-        win = [k for k in ("start", "stop") if k in op[1]]
-        return f"subset({'window' if win else 'no window'}; {'column condition' if cols else 'no column condition'})"
     return kind
 
 
+def _others(name):
+    ocls, orecs = other_dbs()[name]
+    return build_db(ocls, orecs, via_text=False)
+
+
 def replay_history(cls, init, hist):
-    """re-execute a history on a fresh db; -> ('ok', db) | ('err', name, index of failing op)"""
-    cache = {}
-
-    def others(name):
-        ocls, orecs = other_dbs()[name]
-        return build_db(ocls, orecs, via_text=False)
-
+    """re-execute a history on a fresh db
+    -> ('ok', db, hidden fields before the last op) | ('err', name, index of failing op, hidden fields before it)"""
     db = build_db(cls, init, via_text=False)
+    hidden = hidden_of(db)
     for i, op in enumerate(hist):
-        r = call(real_apply, db, op, others)
+        hidden = hidden_of(db)
+        r = call(real_apply, db, op, _others)
         if r[0] != "ok":
-            return ("err", r[1], i)
+            return ("err", r[1], i, hidden)
         db = r[1]
-    return ("ok", db)
+    return ("ok", db, hidden)
+
+
+def judge_step(r, m, nops):
+    """compare the outcome r of a replay with the model state m -> None | (what, detail)"""
+    if m[0] == "err":
+        if r[0] == "err" and r[1] == m[1] and r[2] == nops - 1:
+            return None
+        return (f"expected {m[1]}" + (f", raised {r[1]}" if r[0] == "err" else ", returned"), {"got": str(r[:3])[:200], "want": m[1]})
+    if r[0] == "err":
+        if r[2] == nops - 1:
+            return (f"raised {r[1]}", {"got": r[1], "want": "ok"})
+        return ("an earlier operation of the history failed", {"got": str(r[:3])})
+    got = call(observe, r[1])
+    want = model_observe(m)
+    if got[0] != "ok":
+        return (f"result db cannot be read, raised {got[1]}", {"got": got[1]})
+    if got[1] != want:
+        key = next(k for k in want if got[1].get(k) != want[k])
+        what = {"class": "class of the result", "len": "number of records", "rows": "multiset of records"}.get(key, "query answers on the result")
+        if key == "len":
+            what += " (more than the model)" if got[1]["len"] > want["len"] else " (fewer than the model)"
+        return (what, {"observable": key, "got": str(got[1][key])[:500], "want": str(want[key])[:500]})
+    return None
+
+
+def state_class(pre, op, m, what, hidden, cls=None, init=None, hist=None):
+    """structural class of the state a failing last operation was applied to: does the failure need the history?"""
+    if pre is None:
+        return ""
+    # (a) the same operation on a fresh in-memory db holding the same records
+    def on_fresh(file_backed):
+        db = build_db(pre[0], pre[1], via_text=False)
+        if file_backed:
+            db = real_apply(db, ("write_reload",), _others)
+        r = call(real_apply, db, op, _others)
+        r = ("ok", r[1], None) if r[0] == "ok" else ("err", r[1], 0, None)
+        j = judge_step(r, m, 1)
+        return j is not None and j[0] == what
+
+    if call(on_fresh, False) == ("ok", True):
+        return ""
+    after_commit = None
+    if hidden[1] and hist:
+        # the same history, but with the pending transaction committed before the last operation
+        def committed():
+            r = replay_history(cls, init, hist[:-1])
+            r[1].db.commit()
+            x = call(real_apply, r[1], op, _others)
+            x = ("ok", x[1], None) if x[0] == "ok" else ("err", x[1], 0, None)
+            j = judge_step(x, m, 1)
+            return "agrees" if j is None else j[0]
+
+        after_commit = call(committed)
+        if after_commit == ("ok", "agrees"):
+            return " [connection holds an open transaction]"
+    if hidden[0] == "file" and (call(on_fresh, True) == ("ok", True) or after_commit == ("ok", what)):
+        return " [file-backed db]"
+    parts = (["file-backed db"] if hidden[0] == "file" else []) + (["connection holds an open transaction"] if hidden[1] else [])
+    return " [" + (", ".join(parts) or "history-dependent") + "]"
 
 
 def run_history(acc, cls, init_name, depth, max_records):
     init = initial_dbs(cls)[init_name]
     case0 = {"part": "history", "cls": cls, "init": init_name}
-    s0 = (cls, init, "memory")
-    seen = {canon(s0)}
+    s0 = (cls, init, None)
     fresh_ok = {}
-    frontier = [(s0, [])]
     acc.state(0)
-    check_state(acc, cls, init, s0, [], case0, fresh_ok)
+    ok, hid = check_state(acc, cls, init, None, s0, [], case0, fresh_ok)
+    seen = {canon(s0, hid)}
+    frontier = [(s0, [])]
     for d in range(1, depth + 1):
         nxt = []
         for state, hist in frontier:
@@ -726,10 +832,10 @@ def run_history(acc, cls, init_name, depth, max_records):
                 acc.transitions += 1
                 acc.traces += 1
                 acc.case(("history", cls, init_name, str(h2)), nontrivial=bool(state[1]))
-                ok = check_state(acc, cls, init, m, h2, case0, fresh_ok)
+                ok, hid = check_state(acc, cls, init, state, m, h2, case0, fresh_ok)
                 if m[0] == "err" or not ok or len(m[1]) > max_records:
                     continue  # bigger dbs are checked but not expanded
-                k = canon(m)
+                k = canon(m, hid)
                 if k not in seen:
                     seen.add(k)
                     acc.state(d)
@@ -738,54 +844,38 @@ def run_history(acc, cls, init_name, depth, max_records):
     acc.sample({"class": cls, "initial": init_name, "depth": depth, "states": len(seen)}, "history")
 
 
-def check_state(acc, cls, init, m, hist, case0, fresh_ok=None):
-    """execute hist on a fresh real db and compare with the model state m; True when they agree"""
+def check_state(acc, cls, init, pre, m, hist, case0, fresh_ok=None):
+    """execute hist on a fresh real db and compare with the model state m (pre = model state before the last op)
+    -> (agrees?, hidden fields of the reached db)"""
     case = dict(case0, hist=[list(o) for o in hist])
     r = replay_history(cls, init, hist)
     last = op_class(hist[-1]) if hist else "construct"
-    pre = ""
-    if hist and len(hist) > 1:
-        # the source kind of the db the last operation was applied to matters for serialisation
-        prev = (cls, init, "memory")
-        for op in hist[:-1]:
-            prev = model_apply(prev, op)
-        pre = " [file-backed db]" if prev[2] == "file" else ""
+    j = judge_step(r, m, len(hist))
+    acc.outcome((m[0], len(m[1]) if m[0] != "err" else m[1], j[0] if j else "agrees"))
+    if j:
+        if j[0] != "an earlier operation of the history failed":
+            sig = f"{last}: {j[0]}"
+            if hist:
+                if hist[-1][0] == "subset":
+                    sig += f" [{query_class(hist[-1][1], j[0])}]"
+                sig += state_class(pre, hist[-1], m, j[0], r[-1], cls, init, hist)
+            acc.fail(sig, case, j[1])
+        return False, None
     if m[0] == "err":
-        acc.outcome(("err", r[1] if r[0] == "err" else "none"))
-        if r[0] == "err" and r[1] == m[1] and r[2] == len(hist) - 1:
-            return True
-        acc.fail(f"{last}: expected {m[1]}" + (f", raised {r[1]}" if r[0] == "err" else ", returned") + pre, case,
-                 {"got": str(r)[:200], "want": m[1]})
-        return False
-    if r[0] == "err":
-        acc.outcome(("err", r[1]))
-        if r[2] == len(hist) - 1:
-            acc.fail(f"{last}: raised {r[1]}{pre}", case, {"got": r[1], "want": "ok"})
-        return False
-    got = call(observe, r[1])
-    want = model_observe(m)
-    acc.outcome((want["class"], want["len"], want["source"]))
-    if got[0] != "ok":
-        acc.fail(f"{last}: result db cannot be read, raised {got[1]}{pre}", case, {"got": got[1]})
-        return False
-    if got[1] != want:
-        key = next(k for k in want if got[1].get(k) != want[k])
-        what = {"class": "class of the result", "len": "number of records", "rows": "multiset of records",
-                "source": "source of the result"}.get(key, "query answers on the result")
-        if key == "len":
-            what += " (more than the model)" if got[1]["len"] > want["len"] else " (fewer than the model)"
-        acc.fail(f"{last}: {what}{pre}", case, {"observable": key, "got": str(got[1][key])[:500], "want": str(want[key])[:500]})
-        return False
+        return True, None
+    hid = hidden_of(r[1])
     # differential: a fresh db built from the model value (through text loading) answers the same; once per model value
     k = canon(m)[:2]
-    if fresh_ok is not None and k not in fresh_ok:
-        w = dict(want, source="memory")
+    natives = [x["name"] for x in m[1] if x["table"] == "gff"]
+    if len(set(natives)) != len(natives):
+        acc.count("fresh_db_not_constructible_duplicate_gff_ids")  # GFF rows sharing an ID are merged on load
+    elif fresh_ok is not None and k not in fresh_ok:
         fresh = call(lambda: observe(build_db(m[0], m[1], via_text=True)))
-        fresh_ok[k] = fresh == ("ok", w)
+        fresh_ok[k] = fresh == ("ok", model_observe(m))
         if not fresh_ok[k]:
             acc.fail("fresh db built from the model records differs from the model", case, {"got": str(fresh)[:300]})
-            return False
-    return True
+            return False, None
+    return True, hid
 
 
 def initial_dbs(cls):
@@ -845,10 +935,12 @@ def replay(case):
     elif part == "history":
         hist = [_op_from_json(o) for o in case["hist"]]
         init = initial_dbs(case["cls"])[case["init"]]
-        m = (case["cls"], init, "memory")
+        m = (case["cls"], init, None)
+        pre = None
         for op in hist:
+            pre = m
             m = model_apply(m, op)
-        check_state(acc, case["cls"], init, m, hist, {k: case[k] for k in ("part", "cls", "init")}, {})
+        check_state(acc, case["cls"], init, pre, m, hist, {k: case[k] for k in ("part", "cls", "init")}, {})
     return [(sig, rec_["cases"][0]["detail"]) for sig, rec_ in acc.failures.items()]
 
 
